@@ -47,6 +47,10 @@ def getReadersFromUrls(*sourceUrls, **options):
         if mibSource.scheme in ('', 'file', 'zip'):
             scheme = mibSource.scheme
             filePath = url2pathname(mibSource.path)
+            if not scheme:
+                # a plain local path is not a URL: nothing is cut off it at
+                # '#', '?' or ';' and no %-escape is resolved
+                filePath = sourceUrl
             if scheme == 'zip' and mibSource.netloc:
                 # zip://mymibs.zip - the archive is named where a host would be
                 filePath = url2pathname(mibSource.netloc + mibSource.path)
